@@ -406,3 +406,51 @@ def run(ctx):
         ok = bool(rets) and all(norm(resolve(r.value, defs)) == f"self.best_trial.{attr}" for r in rets)
         ctx.check(ok, "R12.5", f.short, f"derived-from-best_trial:{attr}", message=f"Study.{name} is not self.best_trial.{attr}", how="single source of truth")
     ctx.note("sibling_rows", rows)
+
+    # ------------------------------------------------------------ R12.6 infinities in the Pareto code
+    ctx.rule("R12.6", "the Pareto-front code orders and compares objective values but never takes their differences: objective values may be "
+             "+-inf (the property includes them) and inf - inf is NaN, which is neither equal nor ordered")
+    n_fn = 0
+    for fn in p.iter_funcs(("optuna.study._multi_objective",)):
+        tainted = {a for a in fn.params() if "value" in a or "loss" in a}
+        if not tainted:
+            continue
+        n_fn += 1
+        pmf = parent_map(fn.node)
+
+        def touches_values(e, tainted=tainted, pmf=pmf):
+            for y in ast.walk(e):
+                if isinstance(y, ast.Name) and y.id in tainted:
+                    par = pmf.get(id(y))
+                    if isinstance(par, ast.Attribute) and par.attr in ("shape", "size", "ndim", "dtype"):
+                        continue
+                    if isinstance(par, ast.Call) and dotted(par.func) == "len":
+                        continue
+                    return True
+            return False
+        changed = True
+        while changed:
+            changed = False
+            for n in own_nodes(fn.node):
+                if isinstance(n, ast.Assign) and touches_values(n.value):
+                    for t in n.targets:
+                        for y in ast.walk(t):
+                            if isinstance(y, ast.Name) and y.id not in tainted:
+                                # results of shape-like reductions are counts / indices, not values
+                                v = n.value
+                                if isinstance(v, ast.Call) and (dotted(v.func) or "").split(".")[-1] in ("len", "argsort", "lexsort", "arange", "nonzero", "where", "cumsum", "unique", "zeros", "ones", "empty", "full", "any", "all"):
+                                    continue
+                                tainted.add(y.id)
+                                changed = True
+        for n in own_nodes(fn.node):
+            bad = None
+            if isinstance(n, ast.BinOp) and isinstance(n.op, ast.Sub) and (touches_values(n.left) or touches_values(n.right)):
+                bad = norm(n)
+            elif isinstance(n, ast.Call) and (dotted(n.func) or "").split(".")[-1] in ("diff", "subtract", "ptp", "ediff1d", "gradient") and any(touches_values(a) for a in n.args):
+                bad = norm(n)
+            if bad is not None:
+                ctx.fail("R12.6", fn.short, f"difference-of-objective-values:{bad[:40]}",
+                         f"{fn.name} computes `{bad[:70]}` on objective values: for two equal infinite values the difference is NaN (truthy, unordered), so duplicate or "
+                         f"dominated rows are misjudged and best_trials drops a non-dominated trial", where=where(fn, n))
+    ctx.ok("R12.6", "optuna/study/_multi_objective.py", "no-differences-of-objective-values", how=f"{n_fn} functions taking value arrays scanned: comparisons / sorting / unique only")
+    ctx.floor("R12.6", "pareto_functions", n_fn, 7)
